@@ -67,7 +67,11 @@ def gen_real_case(rng, tier, multi):
     regs = [[i, k] for i in range(len(defs)) for k in range(nfiles) if rng.random() < 0.8]
     if not regs:
         regs = [[0, 0]]
-    return {'synthetic': False, 'scn': {'files': files, 'defs': defs, 'regs': regs}}
+    scn = {'files': files, 'defs': defs, 'regs': regs}
+    if multi and rng.random() < 0.4:
+        # the definition objects were used before, by a one-file (in-process) searcher
+        scn['_pre_run'] = True
+    return {'synthetic': False, 'scn': scn}
 
 
 def observe(coll, paths, tags, seqobjs, uid_of):
@@ -193,6 +197,16 @@ def run_real(case):
     tmpdir = tempfile.mkdtemp(prefix='vh-')
     try:
         built = S.Built(scn, tmpdir)
+        if scn.get('_pre_run'):
+            from searchkit import FileSearcher
+            fs0 = FileSearcher()
+            p0 = os.path.join(tmpdir, scn['files'][0]['name'])
+            for r in scn['regs']:
+                if r[1] == 0:
+                    fs0.add(built.defs[r[0]], p0)
+            if fs0.files:
+                with core.time_limit(core.SINGLE_LIMIT):
+                    fs0.run()
         fs = built.searcher()
         limit = core.MULTI_LIMIT if len(fs.files) > 1 else core.SINGLE_LIMIT
         try:
